@@ -222,6 +222,19 @@ func TestVF_C20_Values(t *testing.T) {
 			} else if !i4.Equal(info) || !bytes.Equal(i4.Hash(), info.Hash()) {
 				c.viol("chain-info-hexjson/differs", "")
 			}
+			// cross-form: what the HTTP relays serve (ToJSON) read by a client that decodes with encoding/json
+			// (the decoder accepts both spellings of the field names)
+			var sb bytes.Buffer
+			_ = info.ToJSON(&sb, nil)
+			served := append([]byte(nil), sb.Bytes()...)
+			i5 := new(chaininfo.Info)
+			if err := json.Unmarshal(served, i5); err != nil {
+				run.Count("served_json_refused_by_the_v2_decoder", 1)
+			} else if !i5.Equal(info) || !bytes.Equal(i5.Hash(), info.Hash()) {
+				c.viol("chain-info-served-json-read-by-v2-decoder/differs", string(served))
+			} else {
+				run.Count("served_json_read_by_the_v2_decoder", 1)
+			}
 		}
 
 		// ---- rejection of out-of-range encodings
